@@ -44,3 +44,90 @@ package presign
 //@   loop 1: invariant forall(k, party.ID, visited(1, k) ==> (body.ChiProofs[k] != nil && body.ChiProofs[k].Plaintext != nil && k != msg.From))
 //@   loop 2: invariant forall(k, party.ID, indom(body.ChiProofs, k) ==> (body.ChiProofs[k] != nil && body.ChiProofs[k].Plaintext != nil && k != msg.From))
 //@   loop 3: invariant forall(k, party.ID, indom(body.ChiProofs, k) ==> (body.ChiProofs[k] != nil && body.ChiProofs[k].Plaintext != nil && k != msg.From))
+
+// ---- message handlers of the presigning rounds (C05, C03): no panic for ANY decoded message, and a message is accepted
+// only after the proof attached to it verified against exactly the sender's / recipient's stored values.
+//@ pred psparty(r *presign1, j party.ID) := pkok(r.Paillier[j]) && pkvals(r.Paillier[j]) && pkbig(r.Paillier[j]) && pedok(r.Pedersen[j]) && r.ECDSA[j] != nil && r.ElGamal[j] != nil
+//@ pred ps1ok(r *presign1) := r != nil && r.Helper != nil && r.Helper.hash != nil && r.Helper.hash.h != nil && r.Helper.info.Group != nil && !held(r.Helper.mtx) && r.Paillier != nil && r.Pedersen != nil && r.ECDSA != nil && r.ElGamal != nil && r.SecretPaillier != nil
+//@ pred ps2ok(r *presign2) := r != nil && ps1ok(r.presign1) && r.K != nil && r.G != nil && r.ElGamalK != nil && r.PresignatureID != nil && r.CommitmentID != nil && r.K != r.G
+//@ pred ps3ok(r *presign3) := r != nil && ps2ok(r.presign2) && r.DeltaCiphertext != nil && r.ChiCiphertext != nil && r.DeltaCiphertext != r.ChiCiphertext
+//@ pred ps4ok(r *presign4) := r != nil && ps3ok(r.presign3) && r.ElGamalChi != nil && r.DeltaShares != nil && r.ElGamalChi != r.ElGamalK
+//@ pred ps5ok(r *presign5) := r != nil && ps4ok(r.presign4) && r.BigGammaShare != nil
+//@ pred ps6ok(r *presign6) := r != nil && ps5ok(r.presign5) && r.BigDeltaShares != nil && r.Gamma != nil && r.BigDeltaShares != r.BigGammaShare
+//@ pred ps7ok(r *presign7) := r != nil && ps6ok(r.presign6) && r.S != nil && r.R != nil
+// what the CBOR decoder leaves in the templates (A-CBOR)
+//@ pred dec_pm2(m *message2) := m.Proof != nil ==> zkencelg.shaped(m.Proof)
+//@ pred dec_pm3(m *message3) := m.ChiProof != nil ==> zkaffg.shaped(m.ChiProof)
+//@ pred dec_pb4(b *broadcast4) := b.DeltaShare != nil
+//@ pred dec_pm5(m *message5) := m.ProofLog != nil ==> zklogstar.shaped(m.ProofLog)
+//@ pred dec_pb5(b *broadcast5) := b.BigGammaShare != nil
+//@ pred dec_pb6(b *broadcast6) := b.BigDeltaShare != nil && (b.Proof != nil ==> zkelog.shaped(b.Proof))
+//@ pred dec_pb7(b *broadcast7) := b.S != nil && (b.Proof != nil ==> zkelog.shaped(b.Proof))
+
+//@ func (*presign2).StoreBroadcastMessage
+//@   nopanic[C05]
+//@   requires ps2ok(r) && msg.Content != nil && psparty(r.presign1, msg.From)
+//@   let body = msg.Content.(*broadcast2)
+//@   ensures[C03] result == nil ==> typeis(msg.Content, *broadcast2) && body != nil && body.K != nil && body.G != nil && body.Z != nil && body.Z.L != nil && body.Z.M != nil && len(body.CommitmentID) == 64
+//@   ensures[C03] result == nil ==> r.K[msg.From] == body.K && r.G[msg.From] == body.G && r.ElGamalK[msg.From] == body.Z && r.CommitmentID[msg.From] == body.CommitmentID
+//@ func (*presign2).VerifyMessage
+//@   nopanic[C05]
+//@   requires ps2ok(r) && msg.Content != nil && (typeis(msg.Content, *message2) ==> (msg.Content.(*message2) != nil ==> dec_pm2(msg.Content.(*message2))))
+//@   requires psparty(r.presign1, msg.From) && psparty(r.presign1, msg.To) && r.K[msg.From] != nil && r.ElGamalK[msg.From] != nil && r.ElGamalK[msg.From].L != nil && r.ElGamalK[msg.From].M != nil
+//@   let body = msg.Content.(*message2)
+//@   ensures[C03] result == nil ==> typeis(msg.Content, *message2) && body != nil && lastresult(Verify)
+//@   assert_at[C03] Verify "if !body.Proof.Verify(r.HashForID(from), zkencelg.Public{": arg2.C == r.K[msg.From] && arg2.A == r.ElGamal[msg.From] && arg2.B == r.ElGamalK[msg.From].L && arg2.X == r.ElGamalK[msg.From].M && arg2.Prover == r.Paillier[msg.From] && arg2.Aux == r.Pedersen[msg.To]
+
+//@ func (*presign3).StoreBroadcastMessage
+//@   nopanic[C05]
+//@   requires ps3ok(r) && msg.Content != nil && forall(k, party.ID, inslice(r.Helper.partyIDs, k) ==> psparty(r.presign1, k))
+//@   let body = msg.Content.(*broadcast3)
+//@   ensures[C03] result == nil ==> typeis(msg.Content, *broadcast3) && body != nil && body.DeltaCiphertext != nil && body.ChiCiphertext != nil
+//@   ensures[C03] result == nil ==> forall(k, party.ID, (inslice(r.Helper.partyIDs, k) && k != msg.From) ==> (body.DeltaCiphertext[k] != nil && body.ChiCiphertext[k] != nil))
+//@   ensures[C03] result == nil ==> r.DeltaCiphertext[msg.From] == body.DeltaCiphertext && r.ChiCiphertext[msg.From] == body.ChiCiphertext
+//@   loop 1: invariant each(r.Helper.partyIDs[:rangeindex+1], k, k != msg.From ==> (body.DeltaCiphertext[k] != nil && body.ChiCiphertext[k] != nil))
+//@ func (*presign3).VerifyMessage
+//@   nopanic[C05]
+//@   requires ps3ok(r) && msg.Content != nil && (typeis(msg.Content, *message3) ==> (msg.Content.(*message3) != nil ==> dec_pm3(msg.Content.(*message3))))
+//@   requires psparty(r.presign1, msg.From) && psparty(r.presign1, msg.To) && r.K[msg.To] != nil && r.G[msg.From] != nil
+//@   let body = msg.Content.(*message3)
+//@   ensures[C03] result == nil ==> typeis(msg.Content, *message3) && body != nil && lastresult(Verify)
+//@   assert_at[C03] Verify "if !body.DeltaProof.Verify(r.Group(), r.HashForID(from), zkaffp.Public{": arg3.Kv == r.K[msg.To] && arg3.Dv == r.DeltaCiphertext[msg.From][msg.To] && arg3.Fp == body.DeltaF && arg3.Xp == r.G[msg.From] && arg3.Prover == r.Paillier[msg.From] && arg3.Verifier == r.Paillier[msg.To] && arg3.Aux == r.Pedersen[msg.To]
+//@   assert_at[C03] Verify "if !body.ChiProof.Verify(r.HashForID(from), zkaffg.Public{": arg2.Kv == r.K[msg.To] && arg2.Dv == r.ChiCiphertext[msg.From][msg.To] && arg2.Fp == body.ChiF && arg2.Xp == r.ECDSA[msg.From] && arg2.Prover == r.Paillier[msg.From] && arg2.Verifier == r.Paillier[msg.To] && arg2.Aux == r.Pedersen[msg.To] && called(Verify)
+
+//@ func (*presign4).StoreBroadcastMessage
+//@   nopanic[C05]
+//@   requires ps4ok(r) && msg.Content != nil && (typeis(msg.Content, *broadcast4) ==> (msg.Content.(*broadcast4) != nil ==> dec_pb4(msg.Content.(*broadcast4))))
+//@   let body = msg.Content.(*broadcast4)
+//@   ensures[C03] result == nil ==> typeis(msg.Content, *broadcast4) && body != nil && scval(body.DeltaShare) != s_zero() && body.ElGamalChi != nil && body.ElGamalChi.L != nil && body.ElGamalChi.M != nil
+//@   ensures[C03] result == nil ==> r.ElGamalChi[msg.From] == body.ElGamalChi && r.DeltaShares[msg.From] == body.DeltaShare
+
+//@ func (*presign5).StoreBroadcastMessage
+//@   nopanic[C05]
+//@   requires ps5ok(r) && msg.Content != nil && (typeis(msg.Content, *broadcast5) ==> (msg.Content.(*broadcast5) != nil ==> dec_pb5(msg.Content.(*broadcast5))))
+//@   let body = msg.Content.(*broadcast5)
+//@   ensures[C03] result == nil ==> typeis(msg.Content, *broadcast5) && body != nil && ptval(body.BigGammaShare) != p_id() && r.BigGammaShare[msg.From] == body.BigGammaShare
+//@ func (*presign5).VerifyMessage
+//@   nopanic[C05]
+//@   requires ps5ok(r) && msg.Content != nil && (typeis(msg.Content, *message5) ==> (msg.Content.(*message5) != nil ==> dec_pm5(msg.Content.(*message5))))
+//@   requires psparty(r.presign1, msg.From) && psparty(r.presign1, msg.To) && r.G[msg.From] != nil && r.BigGammaShare[msg.From] != nil
+//@   let body = msg.Content.(*message5)
+//@   ensures[C03] result == nil ==> typeis(msg.Content, *message5) && body != nil && lastresult(Verify)
+//@   assert_at[C03] Verify "if !body.ProofLog.Verify(r.HashForID(msg.From), zklogstar.Public{": arg2.C == r.G[msg.From] && arg2.X == r.BigGammaShare[msg.From] && arg2.Prover == r.Paillier[msg.From] && arg2.Aux == r.Pedersen[msg.To]
+
+//@ func (*presign6).StoreBroadcastMessage
+//@   nopanic[C05]
+//@   requires ps6ok(r) && msg.Content != nil && (typeis(msg.Content, *broadcast6) ==> (msg.Content.(*broadcast6) != nil ==> dec_pb6(msg.Content.(*broadcast6))))
+//@   requires psparty(r.presign1, msg.From) && r.ElGamalK[msg.From] != nil && r.ElGamalK[msg.From].L != nil && r.ElGamalK[msg.From].M != nil
+//@   let body = msg.Content.(*broadcast6)
+//@   ensures[C03] result == nil ==> typeis(msg.Content, *broadcast6) && body != nil && ptval(body.BigDeltaShare) != p_id() && lastresult(Verify) && r.BigDeltaShares[msg.From] == body.BigDeltaShare
+//@   assert_at[C03] Verify "if !body.Proof.Verify(r.HashForID(from), zkelog.Public{": arg2.E == r.ElGamalK[msg.From] && arg2.ElGamalPublic == r.ElGamal[msg.From] && arg2.Base == r.Gamma && arg2.Y == body.BigDeltaShare
+
+//@ func (*presign7).StoreBroadcastMessage
+//@   nopanic[C05]
+//@   requires ps7ok(r) && msg.Content != nil && (typeis(msg.Content, *broadcast7) ==> (msg.Content.(*broadcast7) != nil ==> dec_pb7(msg.Content.(*broadcast7))))
+//@   requires psparty(r.presign1, msg.From) && r.ElGamalChi[msg.From] != nil && r.ElGamalChi[msg.From].L != nil && r.ElGamalChi[msg.From].M != nil
+//@   let body = msg.Content.(*broadcast7)
+//@   ensures[C03] result == nil ==> typeis(msg.Content, *broadcast7) && body != nil && ptval(body.S) != p_id() && lastresult(Verify) && r.S[msg.From] == body.S && r.PresignatureID[msg.From] == body.PresignatureID
+//@   assert_at[C03,C19] Decommit "Decommit(r.CommitmentID[from], body.DecommitmentID, body.PresignatureID)": arg1 == r.CommitmentID[msg.From] && arg2 == body.DecommitmentID && len(arg3) == 1
+//@   assert_at[C03] Verify "if !body.Proof.Verify(r.HashForID(from), zkelog.Public{": arg2.E == r.ElGamalChi[msg.From] && arg2.ElGamalPublic == r.ElGamal[msg.From] && arg2.Base == r.R && arg2.Y == body.S && lastresult(Decommit)
